@@ -419,7 +419,7 @@ PROPS = {
                   "NOT proved, OBSERVED by engine det on the sampled histories only: independence of Go map iteration seeds, goroutine schedules, GC and wall clock "
                   "(two executions in one process + one in another OS process), and export/import of the whole app.",
                   "Tied by T1: every range over a map in app/, x/, osmoutils/, ante/, wasmbinding/ (non-test) is enumerated from the current source; a range whose body is not "
-                  "recognisably order-insensitive must appear in Props.C19.auditedEffectful (16 sites audited by reading; 3 ORDER-DEPENDENT = findings F19a/F19b).",
+                  "recognisably order-insensitive must appear in Props.C19.auditedEffectful (14 sites audited by reading; 1 ORDER-DEPENDENT = finding F27; the two protorev UpdatePools sites were repaired, fix 94fb3c8).",
                   "export/import excludes module 08-wasm (ibc-go keeps its store service/VM in package globals: only the most recently constructed app of a process can export it; "
                   "a failing export panics inside a goroutine of ExportGenesisForModules). Superfluid, gov, authz, IBC transfers and wasm contracts are not in the workload "
                   "(their genesis documents are still exported/imported and compared, mostly empty).",
